@@ -117,6 +117,10 @@ def check(path):
     if batchy:
         acc = sorted(r["call"] for r in recs.values() if r["delivered"])
         con = sorted(r["enter"] for r in recs.values() if r["delivered"])
+        all_calls = sorted(r["call"] for r in recs.values())
+        all_rets = sorted(r["ret"] for r in recs.values() if r["ret"])
+        true_fl = sorted((f["ret"], f["call"]) for f in flushes.values()
+                         if f["ret"] is not None and f["result"] and f["ret"] < first_sd_call)
         for k, r in sorted(recs.items()):
             if r["delivered"] or r["ret"] == 0 or r["ret"] > first_sd_call:
                 continue
@@ -125,6 +129,15 @@ def check(path):
             if A - C < cfg["queue"]:
                 out.append("C01/lost-with-room/%s: record %s never exported, A-C=%d < max_queue_size %d" % (
                     subj, k, A - C, cfg["queue"]))
+                continue
+            # corollary: at most max_queue_size records produced since a completed (true) flush began
+            done = [fc for (fr, fc) in true_fl if fr < r["call"]]
+            if done:
+                fcall = max(done)
+                n = bisect.bisect_left(all_calls, r["ret"]) - bisect.bisect_right(all_rets, fcall)
+                if n <= cfg["queue"]:
+                    out.append("C01/lost-with-room/%s:after-completed-flush: record %s never exported, only %d <= "
+                               "max_queue_size %d records produced since a true flush began" % (subj, k, n, cfg["queue"]))
     if not batchy:
         return out
 
